@@ -22,11 +22,11 @@ Proof.
 Qed.
 
 Lemma site_templated_inv : forall s, site_templated s = true ->
-    exists t, In t templates /\ t_id t = fst s /\ scalar_kind t = true /\ tmpl_ok (t_segs t) = true.
+    exists t, In t templates /\ t_id t = fst s /\ tmpl_ok (t_segs t) = true.
 Proof.
   intros s H. unfold site_templated in H.
   destruct (find (fun t => N.eqb (t_id t) (fst s)) templates) as [t|] eqn:Hf; [|discriminate H].
-  apply find_some in Hf as [Hin He]. apply N.eqb_eq in He. apply andb_true_iff in H as [H1 H2]. eauto.
+  apply find_some in Hf as [Hin He]. apply N.eqb_eq in He. eauto.
 Qed.
 
 (* For every kind of scalar field, every field object that fits the kind's schema and every value of
@@ -38,14 +38,14 @@ Theorem rejection_is_templated :
   forall re self vals, env_ok (init_env k) self vals = true ->
     match run re self vals (g_prog g) with
     | Bare _ => False
-    | Named tid _ => exists t, In t templates /\ t_id t = tid /\ scalar_kind t = true /\ tmpl_ok (t_segs t) = true
+    | Named tid _ => exists t, In t templates /\ t_id t = tid /\ tmpl_ok (t_segs t) = true
     | Pass _ => True
     end.
 Proof.
   intros k Hin g Hg re self vals Hok. destruct (kind_ok_inv k Hin g Hg) as [Hs Ht].
   destruct (run re self vals (g_prog g)) as [v|tid x|e] eqn:Hr; [exact I| |].
   - apply run_sites in Hr. rewrite forallb_forall in Ht. specialize (Ht _ Hr).
-    destruct (site_templated_inv _ Ht) as (t & H1 & H2 & H3 & H4). exists t. cbn [fst] in H2. auto.
+    destruct (site_templated_inv _ Ht) as (t & H1 & H2 & H4). exists t. cbn [fst] in H2. auto.
   - exact (gsafe_sound re self (g_prog g) (init_env k) vals Hok Hs e Hr).
 Qed.
 
@@ -62,7 +62,7 @@ Theorem rejection_names_field :
 Proof.
   intros k Hin g Hg re self vals tid x Hok Hr.
   pose proof (rejection_is_templated k Hin g Hg re self vals Hok) as H. rewrite Hr in H.
-  destruct H as (t & H1 & H2 & H3 & H4). exists t. split; [exact H1|]. split; [exact H2|].
+  destruct H as (t & H1 & H2 & H4). exists t. split; [exact H1|]. split; [exact H2|].
   intros cls name sfx a msg Hc Hn Ha Hp Hrn.
   exact (tmpl_ok_parse (t_segs t) a msg cls name sfx H4 Ha Hc Hn Hp Hrn).
 Qed.
